@@ -6,12 +6,12 @@
  * Elements not listed in a container are unknown there: rejected when critical, ignored when flagged
  * non-critical. Element order inside a container is free except for RE_FIRST / RE_LAST / RE_ORDER.
  *
+ * A publication / calendar authentication record requires the calendar chain it speaks about (conditionally mandatory: judged).
  * Statement-silent decisions (property C10):
  *  - N / F header flags on a KNOWN element (the statement speaks about flags of unknown elements only);
  *  - presence of header and MAC in a PDU (judged with the HMAC by C06) and their position in version 1 PDUs;
  *  - an unknown non-critical element before a RE_FIRST element or after a RE_LAST element ("ignored" and
  *    "header first / MAC last / signature last" can both be argued);
- *  - publication / calendar authentication record without calendar chain (a dependency, not a listed rule);
  *  - UTF-8 beyond lead / continuation structure (overlong forms, surrogates, lead bytes f5..fd), empty
  *    "non-empty" strings, DER blobs other than the ones of the valid base objects. */
 #include "ref_schema.h"
@@ -526,7 +526,8 @@ static void validate(vctx *x, int cont, const unsigned char *p, size_t n, int ha
 			if (e->flags & RE_X0) x_count += count[i];
 			if (e->needs && count[i] > 0) {
 				const rsch_elem *d = rsch_lookup(cont, e->needs);
-				if (d && count[d - c->e] == 0) note(x, RSCH_SILENT, c, "companion-missing", e->name);
+				/* conditionally mandatory: a publication / authentication record is a statement about the calendar chain's root */
+				if (d && count[d - c->e] == 0) note(x, RSCH_REJECT, c, "companion-missing", e->name);
 			}
 		}
 		if (g_members && g_count == 0) note(x, RSCH_REJECT, c, "at-least-one-group-empty", NULL);
